@@ -157,3 +157,10 @@ def strip_all_eids(t, in_meta=False):
     if tag != 'meta' and not in_meta:
         a.pop('eId', None)
     return [tag, a, [k if isinstance(k, str) else strip_all_eids(k, in_meta or tag == 'meta') for k in kids]]
+
+
+def ordered(t):
+    """the tree with attributes as a list of [name, value] pairs, so that the model driver sees them in document order"""
+    if isinstance(t, str):
+        return t
+    return [t[0], [[k, v] for k, v in t[1].items()], [ordered(k) for k in t[2]]]
